@@ -82,3 +82,36 @@ W void w_mser_arr(int32_t i, const char* p, size_t n, bool b, char* out, size_t 
   arena.reset(); JsonDocument doc(&arena); doc.add(i); doc.add(JsonString(p, n, JsonString::Copied)); doc.add(b); doc.add(nullptr);
   s->n = serializeMsgPack(doc, out, cap); s->measure = measureMsgPack(doc);
 }
+
+// ---- array histories (C04/C05/C06): concrete shapes, symbolic values
+struct Hist { unsigned size, n, overflowed, calls_before, calls_after, ok_mask, nesting, frees; int32_t e[8]; };
+static void observe_arr(JsonDocument& doc, Hist* h) {
+  h->size = unsigned(doc.size()); h->overflowed = doc.overflowed(); h->nesting = unsigned(doc.nesting()); h->n = 0;
+  for (JsonVariantConst v : doc.as<JsonArrayConst>()) { if (h->n < 8) h->e[h->n] = v.is<int32_t>() ? v.as<int32_t>() : (v.isNull() ? -1000 : -2000); h->n++; }
+}
+// add a,b,c ; remove index r ; add d          (slot of the removed element must be reused: no allocator call)
+W void w_hist_add_remove_add(int32_t a, int32_t b, int32_t c, int32_t d, unsigned r, Hist* h) {
+  arena.reset(); { JsonDocument doc(&arena); unsigned m = 0;
+  m |= doc.add(a) ? 1 : 0; m |= doc.add(b) ? 2 : 0; m |= doc.add(c) ? 4 : 0;
+  doc.remove(r); h->calls_before = arena.calls; m |= doc.add(d) ? 8 : 0; h->calls_after = arena.calls; h->ok_mask = m;
+  observe_arr(doc, h); } h->frees = arena.n_free;
+}
+// five adds with the allocator failing at call number `failAt` (0 = never): pools hold 4 slots, the 5th add needs a 2nd pool
+W void w_hist_five_adds(int32_t a, int32_t b, int32_t c, int32_t d, int32_t e, unsigned failAt, Hist* h) {
+  arena.reset(failAt ? (1u << (failAt - 1)) : 0); { JsonDocument doc(&arena); unsigned m = 0;
+  m |= doc.add(a) ? 1 : 0; m |= doc.add(b) ? 2 : 0; m |= doc.add(c) ? 4 : 0; m |= doc.add(d) ? 8 : 0; m |= doc.add(e) ? 16 : 0; h->ok_mask = m; h->calls_after = arena.calls;
+  observe_arr(doc, h); } h->frees = arena.n_free;
+}
+// element beyond the end: doc[idx] = x on [a]  (idx concrete per obligation)
+W void w_hist_set_beyond(int32_t a, int32_t x, unsigned idx, Hist* h) {
+  arena.reset(); { JsonDocument doc(&arena); doc.add(a); doc[idx] = x; h->calls_after = arena.calls; observe_arr(doc, h); }
+}
+// deep copy: d2 = copy of [a,b]; then d1[0] = x and d1.add(y); d2 must still be [a,b]
+W void w_hist_copy(int32_t a, int32_t b, int32_t x, int32_t y, Hist* h1, Hist* h2) {
+  arena.reset(); { JsonDocument d1(&arena); d1.add(a); d1.add(b); JsonDocument d2(d1); d1[0] = x; d1.add(y); observe_arr(d1, h1); observe_arr(d2, h2); }
+  h1->frees = arena.n_free; h1->calls_after = arena.calls;
+}
+// clear then reuse
+W void w_hist_clear_reuse(int32_t a, int32_t b, Hist* h) {
+  arena.reset(); { JsonDocument doc(&arena); doc.add(a); doc.add(a); doc.clear(); h->calls_before = arena.calls; h->frees = arena.n_free; doc.add(b); observe_arr(doc, h); h->calls_after = arena.calls; }
+}
